@@ -1,4 +1,5 @@
 import MJ.Proofs.BlocksMisc
+import MJ.Proofs.BlocksAct
 /-!
 # C06 — inheritance, super(), include and import compose templates as specified
 
@@ -896,5 +897,76 @@ example : EnvOK macroBlockEnv := by decide
 example : render macroBlockEnv c0 12 0 = .ok ["<p>", "<c0>", "[", "<c1>", "]"] := by decide +kernel
 example : render [ { layout := [.callBlock 0], blocks := [(0, [.inMacro 9 1 "a" [.super]])] } ] c0 12 0
     = .error [.invalidOperation] := by decide +kernel
+
+/-! ## The state of the activation across the switch to the parent template
+
+`MJ/Model/BlocksAct.lean`: streams name their filters / tests by per-stream local ids, the
+activation caches what it resolved per id, the end-of-instructions arm re-targets the activation to
+the parent's stream.  Tables `MJ.Gen.c06ActivationLocals` / `c06StateAtParentSwitch` are regenerated
+from `vm/mod.rs` / `vm/state.rs` on every run. -/
+section Activation
+open MJ.BlocksAct
+
+/-- A cache that is wiped at every switch is transparent: whatever the extending template and its
+    parents (any number of switches, any streams) used before, every use resolves the name the
+    *current* stream gives the id — the specification has no cache at all. -/
+theorem wiped_cache_is_transparent (wipe : Cache → Bool) (hw : ∀ c, wipe c = true)
+    (s : Stream) (evs : List Ev) : run wipe s Cache.empty evs = runSpec s evs :=
+  run_eq_spec_of_coherent wipe hw evs s _ (coherent_empty s)
+
+/-- The tie to the code: every local of `eval_impl` that is indexed by local ids (the table finds
+    them as the first argument of `get_or_lookup_local(&mut x, *local_id, …)`) is assigned
+    unconditionally in the end-of-instructions arm — and therefore, for every chain of parent
+    switches, behaves like no cache.  A reset moved under a condition makes the table say
+    `conditional`, and this theorem stops building. -/
+theorem parent_switch_resets_per_template_state :
+    idIndexed ≠ [] ∧
+    ∀ row ∈ idIndexed, ∀ (s : Stream) (evs : List Ev),
+      run (wipeOf row.2.2) s Cache.empty evs = runSpec s evs := by
+  refine ⟨by decide, ?_⟩
+  intro row hrow s evs
+  have h : row.2.2 = "reset" := by
+    have : ∀ r ∈ idIndexed, r.2.2 = "reset" := by decide
+    exact this row hrow
+  exact wiped_cache_is_transparent _ (by intro c; simp [wipeOf, h]) s evs
+
+example : idIndexed.map (·.1) = ["loaded_filters", "loaded_tests"] := by decide
+
+/-- Why the reset has to be unconditional: a cache that is carried (a `conditional` row whose
+    condition does not hold) answers with the child's name for the parent's id. -/
+theorem carried_cache_is_wrong :
+    ∃ (s : Stream) (evs : List Ev), run (wipeOf "conditional") s Cache.empty evs ≠ runSpec s evs :=
+  ⟨["lower", "odd"], [.use 1, .switch ["upper", "defined"], .use 1], by decide⟩
+
+/-- … and the "cheap" variant — wipe only when slot 0 is filled, ids being handed out in order —
+    is wrong as well: ids are handed out in *source* order, slots are filled in *execution* order
+    (the first filter of the child sits in a macro body or in a branch that is not taken). -/
+theorem wipe_if_slot0_is_wrong :
+    ∃ (s : Stream) (evs : List Ev), run wipeIfSlot0 s Cache.empty evs ≠ runSpec s evs :=
+  ⟨["pprint", "lower"], [.use 1, .switch ["upper", "title"], .use 1], by decide⟩
+
+/-- with slot 0 filled the cheap variant happens to work on the same streams (the situation of
+    the engine's own regression tests) — the defect needs the hidden first use -/
+example : run wipeIfSlot0 ["pprint", "lower"] Cache.empty [.use 0, .use 1, .switch ["upper", "title"], .use 1]
+    = runSpec ["pprint", "lower"] [.use 0, .use 1, .switch ["upper", "title"], .use 1] := by decide
+
+/-- Classification of everything that is live across the switch.  Locals of the activation: the
+    id-indexed ones are reset, `pc` is reset, `parent_instructions` is taken (so a template
+    extends once per switch), everything else — operand stack, auto-escape stack, loop recursion
+    state — is carried and is *not* id-indexed.  Fields of `State`: exactly `instructions` is
+    re-targeted; block table, loaded set, current block, auto-escape mode, context frames,
+    closures and macro tables are carried (which is what `MJ.Blocks.evalImpl` models: the parent
+    runs on the child's frames, in the child's mode, with the merged block stacks). -/
+theorem activation_state_classified :
+    (∀ r ∈ MJ.Gen.c06ActivationLocals, r.2.2 ∈ ["reset", "taken", "carried"]) ∧
+    (∀ r ∈ MJ.Gen.c06ActivationLocals, r.2.2 = "carried" → r.2.1 = false) ∧
+    treatment "pc" = some (false, "reset") ∧
+    treatment "parent_instructions" = some (false, "taken") ∧
+    MJ.Gen.c06StateAtParentSwitch.filter (·.2 != "carried") = [("instructions", "retargeted")] ∧
+    (∀ f ∈ ["blocks", "loaded_templates", "current_block", "auto_escape", "ctx"],
+      (f, "carried") ∈ MJ.Gen.c06StateAtParentSwitch) := by
+  decide
+
+end Activation
 
 end MJ.C06
